@@ -236,6 +236,12 @@ func mapRangeMain(args []string) {
 		fmt.Printf("range-contract object=syncmap %s\n", msg)
 		return
 	}
+	for _, m := range []string{mapIfaceSequential("any", anyTable(), seed, atoi(args[1])), mapIfaceSequential("error", errorTable(), seed, atoi(args[1]))} {
+		if m != "" {
+			fmt.Printf("map-contract object=syncmap %s\n", m)
+			return
+		}
+	}
 	msg, nr, nw := mapRangeConcurrent(seed, time.Duration(atoi(args[2]))*time.Millisecond)
 	if msg != "" {
 		fmt.Printf("range-contract object=syncmap %s (after %d Range calls, %d writes)\n", msg, nr, nw)
